@@ -581,6 +581,13 @@ def run(chk, drv):
             chk.case("PARSE " + s, True)
             if r != want:
                 chk.disagree("parse_source_type_name", s, r, want)
+        # the decided witness of Props/C13SrcParse.src_parse_newline_witness (the source tie holds on names without a
+        # newline; with one, `(.+)` stops there and the model's scan does not), replayed on the real function
+        got = parse_source_type_name("a.b\nc")
+        chk.count("newline_witness_replayed")
+        chk.extra["newline_witness"] = "parse_source_type_name('a.b\\nc') == %r (Lean: source ('a', 'b'), model ('a', 'b\\nc'))" % (got,)
+        if got != ("a", "b"):
+            chk.disagree("parse_source_type_name newline witness (PyRegex semantics of `.`)", "a.b\\nc", "=a =b", "=%s =%s" % got)
 
     # ---------------- many references in one module: bound names must be pairwise distinct (real function)
     col0 = Collector(chk)
